@@ -1313,6 +1313,11 @@ class TLSConnection(TLSRecordLayer):
                 yield result
         if sr_kex:
             sr_kex = sr_kex.server_share
+            if sr_kex is None:
+                for result in self._sendError(
+                        AlertDescription.decode_error,
+                        "Malformed key_share extension in Server Hello"):
+                    yield result
             self.ecdhCurve = sr_kex.group
             cl_key_share_ex = clientHello.getExtension(ExtensionType.key_share)
             cl_kex = None
@@ -1325,8 +1330,14 @@ class TLSConnection(TLSRecordLayer):
                         "Server selected not advertised group."):
                     yield result
             kex = self._getKEX(sr_kex.group, self.version)
-            shared_sec = kex.calc_shared_key(cl_kex.private,
-                                             sr_kex.key_exchange)
+            try:
+                shared_sec = kex.calc_shared_key(cl_kex.private,
+                                                 sr_kex.key_exchange)
+            except (TLSIllegalParameterException, TLSDecodeError) as alert:
+                for result in self._sendError(
+                        AlertDescription.illegal_parameter,
+                        str(alert)):
+                    yield result
         else:
             shared_sec = bytearray(prf_size)
 
